@@ -1,0 +1,36 @@
+//go:build verif
+
+// Accessors for the external verification harness (/verif): the FEC encoder / decoder of a session
+// (component sessfec).  Compiled only with -tags verif; add-only, no behaviour of the package changes.
+package kcp
+
+import "time"
+
+// VerifSessFecEncoder wraps the session's FEC encoder (nil when the session has none).  The encoder
+// belongs to the postProcess goroutine: read it only while that goroutine is idle.
+func VerifSessFecEncoder(s *UDPSession) *VerifFECEncoder {
+	if s.fecEncoder == nil {
+		return nil
+	}
+	return &VerifFECEncoder{s.fecEncoder}
+}
+
+// VerifSessFecDecoderState copies the state of the session's FEC decoder under the session lock
+// (ok = false when the session has no decoder yet).
+func VerifSessFecDecoderState(s *UDPSession) (st VerifFECDecoderState, ok bool) {
+	s.mu.Lock()
+	defer s.mu.Unlock()
+	if s.fecDecoder == nil {
+		return st, false
+	}
+	return (&VerifFECDecoder{s.fecDecoder}).State(), true
+}
+
+// VerifSessFecGapMs is the left-hand side of the encoder's time test for an encode call made now:
+// time.Now().UnixMilli() - tsLatestPacket (0 when the session has no encoder).
+func VerifSessFecGapMs(s *UDPSession) int64 {
+	if s.fecEncoder == nil {
+		return 0
+	}
+	return time.Now().UnixMilli() - s.fecEncoder.tsLatestPacket
+}
